@@ -26,6 +26,10 @@ CardNF(c) == /\ Bound(c[1]) /\ Bound(c[2])
              /\ (c # Unset => ~(c[1] \in {0, N} /\ c[2] \in {0, N}))
 
 Falsy(b) == b = N \/ b = 0
+\* wrong-length sequences (also those holding only zeros / None) and other types are never accepted;
+\* empty / zero objects of other types ((), [], "", 0.0) are a grey zone like 0: refused or "unset"
+WrongForms == {"str", "float", "pairfloat", "tuple1", "tuple3", "tuple3z", "tuple1n", "list1z", "tuple3n", "pairstr"}
+GreyForms == {"tuple0", "list0", "emptystr", "float0"}
 \* REFERENCE: result of assigning x, Raise when refused
 FormatCard(x) ==
    CASE x.t = "none" -> Unset
@@ -37,6 +41,7 @@ FormatCard(x) ==
                ELSE IF ma /\ Falsy(x.a) THEN <<N, x.b>>
                ELSE IF mi /\ Falsy(x.b) THEN <<x.a, N>>
                ELSE Raise
+     [] x.t \in GreyForms -> Unset
      [] OTHER -> Raise
 
 \* CONTRACT classes of inputs
@@ -45,7 +50,7 @@ ClearlyValid(x) == \/ x.t = "none"
                    \/ (x.t = "pair" /\ (x.a = N \/ x.a >= 1) /\ (x.b = N \/ x.b >= 1)
                           /\ ~(x.a = N /\ x.b = N) /\ (x.a # N /\ x.b # N => x.a <= x.b))
 Meaning(x) == IF x.t = "none" THEN Unset ELSE IF x.t = "int" THEN <<N, x.v>> ELSE <<x.a, x.b>>
-ClearlyInvalid(x) == \/ x.t \in {"str", "float", "pairfloat", "tuple1", "tuple3"}
+ClearlyInvalid(x) == \/ x.t \in WrongForms
                      \/ (x.t = "int" /\ x.v < 0)
                      \/ (x.t = "pair" /\ ((x.a # N /\ x.a < 0) \/ (x.b # N /\ x.b < 0)))
                      \/ (x.t = "pair" /\ x.a # N /\ x.b # N /\ x.a >= 1 /\ x.b >= 1 /\ x.a > x.b)
